@@ -1,5 +1,4 @@
-(* C19: HasSuffixPath agrees with the suffix relation on component lists when both
-   paths are written canonically. *)
+(* C19: HasSuffixPath agrees with the suffix relation on component lists. *)
 From PV Require Import Lib.Bytes Model.Paths Spec.PathDenote Proofs.PathsBase Proofs.PathsPrefix
   Proofs.PathsContains.
 Open Scope N_scope.
@@ -11,95 +10,67 @@ Proof.
   - intros [pre ->]. exists (rev pre). apply rev_app_distr.
 Qed.
 
-(* the text comparison of HasSuffixPath *)
-Lemma suffix_text_spec p suf :
-  has_suffix_path p suf = true <-> p = suf \/ exists a, p = a ++ slash :: suf.
+(* comparing the last len(a) elements of b with a *)
+Lemma suffix_by_skipn a b :
+  (if (length b <? length a)%nat then false else list_prefixb a (skipn (length b - length a) b))
+  = list_suffixb a b.
 Proof.
-  unfold has_suffix_path. split.
-  - destruct (strip_prefix (rev suf) (rev p)) as [r|] eqn:E; [|discriminate].
-    apply strip_prefix_some in E.
-    assert (Hp : p = rev r ++ suf).
-    { rewrite <- (rev_involutive p), E, rev_app_distr, rev_involutive. reflexivity. }
-    destruct r as [|c r]; intro H.
-    + left. exact Hp.
-    + right. apply N.eqb_eq in H. subst c. exists (rev r). rewrite Hp. simpl. rewrite <- app_assoc. reflexivity.
-  - intros [->|[a ->]].
-    + assert (E : strip_prefix (rev suf) (rev suf) = Some []) by (apply strip_prefix_some; symmetry; apply app_nil_r).
-      rewrite E. reflexivity.
-    + assert (E : strip_prefix (rev suf) (rev (a ++ slash :: suf)) = Some (slash :: rev a)).
-      { apply strip_prefix_some. rewrite rev_app_distr. simpl. rewrite <- app_assoc. reflexivity. }
-      rewrite E. reflexivity.
+  apply Bool.eq_true_iff_eq. rewrite list_suffixb_spec.
+  destruct (length b <? length a)%nat eqn:El.
+  - apply Nat.ltb_lt in El. split; [discriminate|]. intros [pre ->]. rewrite app_length in El. lia.
+  - apply Nat.ltb_ge in El. rewrite list_prefixb_spec. split.
+    + intros [c H]. exists (firstn (length b - length a) b).
+      assert (Hl : length (skipn (length b - length a) b) = length a) by (rewrite skipn_length; lia).
+      rewrite H, app_length in Hl. destruct c; [|simpl in Hl; lia]. rewrite app_nil_r in H.
+      pose proof (firstn_skipn (length b - length a) b) as F. rewrite H in F. symmetry. exact F.
+    + intros [pre ->]. exists []. rewrite app_length, Nat.add_sub.
+      rewrite skipn_app, Nat.sub_diag, skipn_all. rewrite app_nil_r. reflexivity.
 Qed.
 
-(* what a canonical path looks like *)
-Lemma canonical_cases p : canonical p ->
-  (p = dotstr /\ components p = []) \/
-  (p = [slash] /\ components p = [[]]) \/
-  (p = join_slash (components p) /\ components p <> [] /\ components p <> [[]]
-   /\ split_slash p = components p).
+(* the text shortcut of HasSuffixPath *)
+Lemma text_suffix_spec p suf :
+  text_suffix p suf = true -> p = suf \/ exists a, p = a ++ slash :: suf /\ starts_slash suf = false.
 Proof.
-  unfold canonical, canonical_text. intro H.
-  destruct (components p) as [|x t] eqn:E.
-  - left. split; [exact H|reflexivity].
-  - destruct x as [|c x]; [destruct t as [|y t]|].
-    + right; left. split; [exact H|reflexivity].
-    + right; right. rewrite join_segs_join in H. repeat split; try discriminate; try exact H.
-      rewrite H at 1. apply split_join; [discriminate|]. rewrite <- E. apply components_noslash.
-    + right; right. rewrite join_segs_join in H. repeat split; try discriminate; try exact H.
-      rewrite H at 1. apply split_join; [discriminate|]. rewrite <- E. apply components_noslash.
-Qed.
-
-Lemma components_tail_names p x t y : components p = x :: t -> In y t -> y <> [].
-Proof.
-  unfold components. fold (names p). intros H Hy.
-  assert (In y (names p)).
-  { destruct (rooted p); simpl in H.
-    - inversion H; subst. exact Hy.
-    - rewrite H. right. exact Hy. }
-  apply name_nonempty in H0. tauto.
+  unfold text_suffix.
+  destruct (strip_prefix (rev suf) (rev p)) as [r|] eqn:E; [|discriminate].
+  apply strip_prefix_some in E.
+  assert (Hp : p = rev r ++ suf).
+  { rewrite <- (rev_involutive p), E, rev_app_distr, rev_involutive. reflexivity. }
+  destruct r as [|c r]; intro H.
+  - left. exact Hp.
+  - right. apply andb_true_iff in H as [H1 H2]. apply N.eqb_eq in H1. subst c. apply negb_true_iff in H2.
+    exists (rev r). split; [|exact H2]. rewrite Hp. simpl. rewrite <- app_assoc. reflexivity.
 Qed.
 
 Theorem suffix_is_parts_suffix p suf :
-  canonical p -> canonical suf -> suf <> dotstr ->
+  p <> [] -> suf <> [] -> components suf <> [] ->
   has_suffix_path p suf = path_suffixb suf p.
 Proof.
-  intros Hp Hs Hd. unfold path_suffixb.
-  destruct (list_suffixb (components suf) (components p)) eqn:El.
-  - (* component suffix -> text suffix *)
-    apply suffix_text_spec. apply list_suffixb_spec in El as [pre El].
-    destruct (canonical_cases suf Hs) as [[E _]|[[Es Ecs]|(Es & Hs1 & Hs2 & Hs3)]]; [contradiction| |].
-    + (* suf = "/" *)
-      rewrite Ecs in El. assert (pre = []) by (eapply (empty_component_first p pre [] []); rewrite app_nil_r; exact El).
-      subst pre. simpl in El. left.
-      destruct (canonical_cases p Hp) as [[_ E]|[[E _]|(_ & _ & E & _)]]; congruence.
-    + destruct (canonical_cases p Hp) as [[_ E]|[[_ E]|(Ep & _ & _ & _)]].
-      * rewrite E in El. destruct pre; simpl in El; [congruence|discriminate].
-      * rewrite E in El. destruct pre as [|y pre]; simpl in El; [congruence|].
-        injection El as _ El. destruct pre; simpl in El; [exfalso; apply Hs1; symmetry; exact El|discriminate].
-      * rewrite Ep, El. destruct pre as [|y pre].
-        -- left. simpl. symmetry. exact Es.
-        -- right. exists (join_slash (y :: pre)). rewrite Es at 2.
-           apply join_app; [discriminate|exact Hs1].
-  - (* no component suffix -> no text suffix *)
-    destruct (has_suffix_path p suf) eqn:Et; [|reflexivity]. exfalso.
-    assert (Hno : forall pre, components p <> pre ++ components suf).
-    { intros pre E. assert (list_suffixb (components suf) (components p) = true)
-        by (apply list_suffixb_spec; eauto). congruence. }
-    apply suffix_text_spec in Et as [->|[a Ea]].
-    + apply (Hno []). reflexivity.
-    + destruct (rooted suf) eqn:Rs.
-      * (* p = a ++ "/" ++ "/..." is not canonical *)
-        destruct suf as [|c s]; [discriminate|]. simpl in Rs. apply N.eqb_eq in Rs. subst c.
-        assert (Hsp : split_slash p = split_slash a ++ [] :: split_slash s).
-        { rewrite Ea, split_app_slash. reflexivity. }
-        destruct (split_cons a) as (x & t & Exa). rewrite Exa in Hsp.
-        destruct (canonical_cases p Hp) as [[E _]|[[E _]|(_ & _ & _ & E)]].
-        -- rewrite E in Hsp. simpl in Hsp. destruct t; discriminate.
-        -- rewrite E in Ea. destruct a as [|? [|? ?]]; discriminate.
-        -- rewrite E in Hsp. simpl in Hsp.
-           eapply (components_tail_names p x (t ++ [] :: split_slash s) []); [exact Hsp| |reflexivity].
-           apply in_or_app. right. left. reflexivity.
-      * apply (Hno ((if rooted p then [[]] else []) ++ names a)).
-        unfold components at 1. fold (names p). rewrite Ea at 2. rewrite names_app_slash.
-        unfold components. rewrite Rs. simpl app. fold (names suf). rewrite app_assoc. reflexivity.
+  intros Hp Hs Hc. unfold has_suffix_path, path_suffixb.
+  replace (is_empty p) with false by (destruct p; [contradiction|reflexivity]).
+  replace (is_empty suf) with false by (destruct suf; [contradiction|reflexivity]). simpl orb. cbv iota.
+  destruct (text_suffix p suf) eqn:Et.
+  - symmetry. apply list_suffixb_spec. apply text_suffix_spec in Et as [->|(a & -> & Hr)].
+    + exists []. reflexivity.
+    + exists ((if rooted (a ++ slash :: suf) then [[]] else []) ++ names a).
+      unfold components at 1. fold (names (a ++ slash :: suf)). rewrite names_app_slash.
+      unfold components. change (rooted suf) with (starts_slash suf). rewrite Hr. simpl app.
+      fold (names suf). rewrite app_assoc. reflexivity.
+  - rewrite (is_dot_parts_components suf Hs).
+    destruct (components suf) as [|x t] eqn:Ecs; [contradiction|]. rewrite <- Ecs.
+    rewrite parts_prefix_eq. rewrite (parts_components suf Hs), Ecs. rewrite <- Ecs.
+    rewrite (parts_components p Hp). destruct (components p) as [|y u] eqn:Ecp.
+    + (* p has no component: Parts(p) = ["."] *)
+      rewrite suffix_by_skipn.
+      assert (H1 : list_suffixb (components suf) [dotstr] = false).
+      { destruct (list_suffixb (components suf) [dotstr]) eqn:E; [|reflexivity]. exfalso.
+        apply list_suffixb_spec in E as [pre E]. rewrite Ecs in E.
+        destruct pre as [|z pre]; simpl in E.
+        - injection E as E _. destruct (components_head suf x t Ecs) as [_ Hx]. congruence.
+        - injection E as _ E. destruct pre; discriminate. }
+      assert (H2 : list_suffixb (components suf) [] = false).
+      { destruct (list_suffixb (components suf) []) eqn:E; [|reflexivity]. exfalso.
+        apply list_suffixb_spec in E as [pre E]. rewrite Ecs in E. destruct pre; discriminate. }
+      rewrite H1, H2. reflexivity.
+    + apply suffix_by_skipn.
 Qed.
